@@ -132,6 +132,9 @@ TEST_MODS = [
 ]
 
 MOD_ITEMS_OTHER = [
+    # body-less declarations (kept as opaque items) with a brace-delimited const argument at the top level of the signature
+    "#[cfg(any())] pub fn decl_blk<D>(deps: &D) -> ArrN<{ 2 * 2 }>;",
+    "pub fn decl_blk_where<D>(deps: &D) -> [u8; { 1 + 1 }] where ArrN<{ 1 + 1 }>: Sized, D: Clone;",
     # brace-bodied items whose header ends in a comma (a where clause with a trailing comma, as rustfmt writes it) or contains a
     # brace-delimited const argument
     "fn private_where<T>(t: T) -> T where T: Clone, { t }",
@@ -190,6 +193,9 @@ IMPL_ITEMS_OTHER = [
     "some_macro!();",
     "some_macro! { x }",
     "pub fn decl_only(deps: &impl Sized);",
+    # body-less declarations with a brace-delimited const argument at the top level of the signature
+    "pub fn decl_blk(deps: &impl Sized) -> ArrN<{ 2 * 2 }>;",
+    "#[cfg(any())] fn decl_blk_where<D>(deps: &D) -> u8 where ArrN<{ 1 + 1 }>: Sized;",
     "#[allow(unused)] const DOC: () = { fn f() {} };",
 ]
 
